@@ -45,6 +45,25 @@ type hcall struct {
 	Content int
 	W, H    int
 	Hint    string // label of the hint set
+	// Format, when not empty, names ANOTHER symbology's format for this call (the writer must refuse
+	// it; callers that try each writer in turn do exactly this): "ean" = EAN_13, "other" = CODE_128
+	Format string `json:",omitempty"`
+}
+
+func (c hcall) format(own gozxing.BarcodeFormat) gozxing.BarcodeFormat {
+	switch c.Format {
+	case "ean":
+		if own == gozxing.BarcodeFormat_EAN_13 {
+			return gozxing.BarcodeFormat_EAN_8
+		}
+		return gozxing.BarcodeFormat_EAN_13
+	case "other":
+		if own == gozxing.BarcodeFormat_CODE_128 {
+			return gozxing.BarcodeFormat_CODE_39
+		}
+		return gozxing.BarcodeFormat_CODE_128
+	}
+	return own
 }
 
 func hintSet(label string) map[gozxing.EncodeHintType]interface{} {
@@ -104,10 +123,12 @@ func runHistory() {
 				if c == 1 && (hint == "empty" || hint == "bad" || sz[0] != 0) {
 					continue
 				}
-				menu = append(menu, hcall{c, sz[0], sz[1], hint})
+				menu = append(menu, hcall{Content: c, W: sz[0], H: sz[1], Hint: hint})
 			}
 		}
 	}
+	// calls that name another symbology's format: refused, and without consequence for later calls
+	menu = append(menu, hcall{Hint: "none", Format: "ean"}, hcall{Hint: "none", Format: "other"}, hcall{W: 157, H: 31, Hint: "margin3", Format: "ean"})
 	depth := chk.Pick(2, 3)
 	type job struct {
 		w     int
@@ -119,12 +140,12 @@ func runHistory() {
 			jobs = append(jobs, job{wi, f})
 		}
 	}
-	chk.Range(fmt.Sprintf("writer-object histories: 11 writers x ALL sequences of <=%d calls from a %d-entry menu (9 hint sets incl. a refused one x 2 sizes x 2 contents) on ONE writer object; the last image == the image of a fresh object for the same call", depth, len(menu)), len(jobs),
+	chk.Range(fmt.Sprintf("writer-object histories: 11 writers x ALL sequences of <=%d calls from a %d-entry menu (9 hint sets incl. a refused one x 2 sizes x 2 contents, and 3 calls naming ANOTHER symbology's format) on ONE writer object; the last image == the image of a fresh object for the same call", depth, len(menu)), len(jobs),
 		func(i int) string { return fmt.Sprint(hwriters[jobs[i].w].name, " first call ", menu[jobs[i].first]) },
 		func(l *mc.Local, i int) {
 			hw := hwriters[jobs[i].w]
 			do := func(w gozxing.Writer, c hcall) (*gozxing.BitMatrix, error) {
-				return w.Encode(hw.contents[c.Content], hw.format, c.W, c.H, hintSet(c.Hint))
+				return w.Encode(hw.contents[c.Content], c.format(hw.format), c.W, c.H, hintSet(c.Hint))
 			}
 			fresh := map[hcall]*gozxing.BitMatrix{}
 			freshErr := map[hcall]bool{}
@@ -174,7 +195,7 @@ func runHistory() {
 			}
 			rec([]hcall{menu[jobs[i].first]})
 		})
-	chk.Sample("writer history", hcase{"1d:Code128", []hcall{{0, 0, 0, "margin0"}, {0, 0, 0, "none"}}})
+	chk.Sample("writer history", hcase{"1d:Code128", []hcall{{Hint: "margin0"}, {Hint: "none"}}})
 }
 
 // ---------------------------------------------------------------- one hints map, several writers
